@@ -171,6 +171,10 @@ class Resource:
         if self.rid % 3 == 0:
             raise RuntimeError("resource %d fails to close" % self.rid)     # close() of a resource may raise
 
+    def __len__(self):
+        # a resource may well be an (as yet) empty container: every other one is falsy when it is tracked
+        return self.rid % 2
+
 
 class Rig:
     def __init__(self, servertype, poolsize=8, session_class=True, linger=None):
